@@ -611,7 +611,27 @@ func ruleLockOrder(c *Ctx) {
 				}
 			}
 		}
-		_ = g
+		// the same within one function (what is left of the above once the callee
+		// has been inlined): a Lock of a mutex that is certainly held here
+		for _, m := range g.Nodes {
+			if m.Ast == nil {
+				continue
+			}
+			if _, isDefer := m.Ast.(*ast.DeferStmt); isDefer {
+				continue
+			}
+			for _, call := range callsIn(m.Ast) {
+				v, op := p.lockOp(f, call)
+				if v == nil || op != "lock" || p.rshadowOf[v] != nil {
+					continue
+				}
+				if li.must[m][v] {
+					nSelf++
+					c.R.Violate("R-LOCKORDER/self", p.Pos(call), f.Name, "lock "+p.lockName(v)+" while it is held",
+						p.lockName(v)+" is locked here although it is certainly held already on every path to this statement: sync.Mutex is not reentrant, so the goroutine deadlocks with itself (and every other user of the object behind it) whenever this statement executes", nil)
+				}
+			}
+		}
 	}
 	if nSelf == 0 {
 		c.R.Hold("R-LOCKORDER/self", "-", "", "no self re-acquisition", "no method that takes an object's mutex is called on that object while the mutex is certainly held", true)
